@@ -18,6 +18,8 @@ def gen_repo(rng, portable=True, with_ignored=True, odd=False):
     def f(p, data=None):
         if data is None:
             n = rng.choice([0, 1, 20, 200, 3000])
+            if rng.random() < 0.02:
+                n = rng.choice([1048576, 1048577, 1052576, 2 * 1048576 + 3])
             data = {'r': [rng.randrange(1 << 30), n]}
         nodes.append({'p': p, 't': 'f', 'c': data})
 
